@@ -886,6 +886,8 @@ func runC18(r *Run) {
 	}
 	r.checkNoPanic(P, entries, 40)
 	r.checkCopyAliasing(P)
+	r.checkSeenSets(P)
+	r.checkKeyTypePurpose(P)
 }
 
 func errResultOnly(f *ssa.Function) bool {
@@ -1234,4 +1236,161 @@ func onlyErrors(ff *core.FnFacts, start *ssa.BasicBlock) bool {
 		work = append(work, x.Succs...)
 	}
 	return n > 0
+}
+
+// checkSeenSets (C18, ids unique within a patch): in a loop that rejects an
+// element whose key is already in a local set (hit → error), every completing
+// iteration records the element's key in that set — otherwise nothing is ever
+// found "already seen".
+func (r *Run) checkSeenSets(P string) {
+	n := 0
+	for _, f := range r.P.SubjectFuncs(pkgPatchVal) {
+		if f.Parent() != nil || !errResultOnly(f) {
+			continue
+		}
+		ff := r.E.Facts(f, core.Ctx{})
+		for _, head := range allLoopHeads(f) {
+			// a lookup in a local map whose hit edge only reaches errors
+			type seenSet struct {
+				m   ssa.Value
+				key string
+			}
+			var sets []seenSet
+			for _, b := range f.Blocks {
+				if !head.Dominates(b) || !blockReaches(ff, b, head, nil) {
+					continue
+				}
+				for _, s := range b.Succs {
+					for _, fc := range ff.EdgeFacts(b, s) {
+						if fc.Kind != "hit" || fc.A == nil || fc.B == nil {
+							continue
+						}
+						mk, isMk := fc.A.Val.(*ssa.MakeMap)
+						if !isMk || !onlyErrors(ff, s) {
+							continue
+						}
+						sets = append(sets, seenSet{mk, fc.B.String()})
+					}
+				}
+			}
+			for _, ss := range sets {
+				n++
+				good, nBack := true, 0
+				for _, ip := range loopIterationPaths(ff, head, 4000) {
+					if ip.Ret != nil {
+						continue
+					}
+					nBack++
+					recorded := false
+					for _, b := range ip.Blocks[:len(ip.Blocks)-1] {
+						for _, ins := range b.Instrs {
+							if mu, ok := ins.(*ssa.MapUpdate); ok && mu.Map == ss.m && ff.TB.Of(mu.Key).String() == ss.key {
+								recorded = true
+							}
+						}
+					}
+					if !recorded {
+						good = false
+					}
+				}
+				r.R.Check(good && nBack > 0, fmt.Sprintf("%s.unique.record.%s", P, f.Name()), "E6 dual: a loop that rejects an element whose key is already in the seen set records the key of every element it lets through", core.FuncName(f), r.where(f),
+					"if the key is not recorded, a duplicate id later in the same patch is never detected", fmt.Sprintf("recorded on all %d completing iteration paths", nBack), "an iteration completes without recording "+ss.key)
+			}
+		}
+	}
+	r.R.Floor(P+".unique.floor", "instance floor", n, 3, "seen-set uniqueness loops in the patch validator")
+}
+
+// checkKeyTypePurpose (C18, key type permitted for each declared purpose): the
+// predicate returns true only if the type is in the general table when no
+// purpose is declared, and, for every declared purpose, the purpose has a table
+// and the type is in it.
+func (r *Run) checkKeyTypePurpose(P string) {
+	f := r.fn(P, pkgPatchVal, "validateKeyTypePurpose")
+	if f == nil {
+		return
+	}
+	ff := r.E.Facts(f, core.Ctx{})
+	id := P + ".keytype.purpose"
+	rule := "E6 dual + E2: validateKeyTypePurpose reaches `return true` only with hit(allowedKeyTypesGeneral, type) when there are no purposes, and completes a purpose iteration only under hit(allowedKeyTypes, purpose) ∧ hit(that table, type)"
+	why := "a key type that is not permitted for one of its declared purposes (or, without purposes, not a general key type) is accepted"
+	heads := allLoopHeads(f)
+	if len(heads) != 1 {
+		r.R.Unk(id, rule, core.FuncName(f), r.where(f), why, fmt.Sprintf("%d loops", len(heads)))
+		return
+	}
+	head := heads[0]
+	good := true
+	var det []string
+	nBack := 0
+	for _, ip := range loopIterationPaths(ff, head, 2000) {
+		if ip.Ret != nil {
+			if c, ok := core.RetOp(ip.Ret, 0).(*ssa.Const); !ok || c.Value == nil || c.Value.String() != "false" {
+				good = false
+				det = append(det, "a return inside the purpose loop is not `false`")
+			}
+			continue
+		}
+		nBack++
+		hitTable, hitType := false, false
+		for _, fc := range rawPathFacts(ff, ip.Blocks) {
+			if fc.Kind != "hit" {
+				continue
+			}
+			if fc.A.Op == "global" && strings.HasSuffix(fc.A.Name, "allowedKeyTypes") && (strings.HasPrefix(fc.B.String(), "range:") || fc.B.Op == "idx") {
+				hitTable = true // the purpose of this iteration has a table
+			}
+			if fc.A.Op != "global" && fc.A.Root() != nil && fc.A.Root().Op == "global" && strings.HasSuffix(fc.A.Root().Name, "allowedKeyTypes") && strings.Contains(fc.B.String(), ".Type(") {
+				hitType = true // the key's type is in that table
+			}
+		}
+		if !hitTable || !hitType {
+			good = false
+			det = append(det, fmt.Sprintf("a purpose iteration completes without both lookups succeeding (purpose table hit=%v, type hit=%v)", hitTable, hitType))
+		}
+	}
+	// before the loop: no purposes => general table hit
+	entryOK := !reachesAvoiding(ff, f.Blocks[0].Instrs[0], head.Instrs[0], func(a, b *ssa.BasicBlock) bool {
+		for _, fc := range ff.EdgeFacts(a, b) {
+			if fc.Kind == "hit" && fc.A.Op == "global" && strings.HasSuffix(fc.A.Name, "allowedKeyTypesGeneral") {
+				return true
+			}
+			set := core.FactSet{fc.Key(): fc}
+			if core.HasFact(set, "cmp(len(PublicKey.Purpose(_)) != 0)") {
+				return true
+			}
+		}
+		return false
+	})
+	if !entryOK {
+		good = false
+		det = append(det, "the purpose loop (and `return true`) is reachable with no purposes and without the general-table lookup succeeding")
+	}
+	// outside the loop every `true` return comes after the loop
+	for _, b := range f.Blocks {
+		if ret, ok := b.Instrs[len(b.Instrs)-1].(*ssa.Return); ok {
+			if c, isC := core.RetOp(ret, 0).(*ssa.Const); isC && c.Value != nil && c.Value.String() == "true" {
+				if !head.Dominates(b) {
+					good = false
+					det = append(det, "`return true` before the purposes were examined")
+				}
+			}
+		}
+	}
+	r.R.Check(good && nBack > 0, id, rule, core.FuncName(f), r.where(f), why, fmt.Sprintf("%d completing iteration paths, all under both lookups", nBack), strings.Join(dedupe(det), "; "))
+	// and the caller rejects on false
+	if vp := r.fn(P, pkgPatchVal, "validatePublicKeys"); vp != nil {
+		vf := r.E.Facts(vp, core.Ctx{})
+		okCaller := false
+		for _, b := range vp.Blocks {
+			for _, s := range b.Succs {
+				for _, fc := range vf.EdgeFacts(b, s) {
+					if fc.Kind == "false" && fc.A.Op == "call" && fc.A.Callee == f {
+						okCaller = onlyErrors(vf, s)
+					}
+				}
+			}
+		}
+		r.R.Check(okCaller, id+".caller", "E2: validatePublicKeys rejects the key on the false edge of validateKeyTypePurpose", core.FuncName(vp), r.where(vp), why, "false → error", "the false edge of the predicate does not lead to an error only")
+	}
 }
